@@ -6,7 +6,7 @@
    the permutations (logical B[r][j] = M[d[r]][c[j]]) and requires the structure Solver.tla prescribes for that point:
    Figure 6 during the first phase, identity U_lower and zero surplus rows after the second, lower-triangular X after the
    third, zero U_upper after the fourth, the identity after the fifth. *)
-EXTENDS Elim, Solver, Rfc6330, TLC, Json, IOUtils
+EXTENDS Elim, Solver, Rfc6330, TLC, Json, IOUtils, FiniteSets
 Rec == ndJsonDeserialize(IOEnv.TRACE)
 VARIABLES v_pos, v_mark, v_applied
 vars == <<v_pos, v_mark, v_applied, v_mat>>
@@ -29,12 +29,34 @@ Logical(M, mk) == [r \in 0..(Len(mk.d) - 1) |-> [j \in 0..(Len(mk.c) - 1) |-> M[
 MarkOk(e, mk, M) ==
   LET B == Logical(M, mk)  nr == Len(mk.d)  nc == Len(mk.c)
       ctx == <<"K", e.k, "route", e.route, "phase", mk.ph, "i", mk.i, "u", mk.u>>
-  IN CASE mk.ph = 1 -> Chk(Fig6(B, nr, nc, mk.i, mk.u), <<"Figure 6 violated after a first-phase step", ctx>>)
+  IN CASE mk.ph = 0 -> Chk(mk.i = 0 /\ mk.n = 0 /\ mk.u = Params(e.k).P, <<"unexpected initial state", ctx>>)
+       [] mk.ph = 1 -> Chk(Fig6(B, nr, nc, mk.i, mk.u), <<"Figure 6 violated after a first-phase step", ctx>>)
        [] mk.ph = 11 -> Chk(Fig6(B, nr, nc, mk.i, mk.u) /\ mk.i + mk.u = nc, <<"Figure 6 violated at the end of the first phase", ctx>>)
        [] mk.ph = 2 -> Chk(AfterPhase2(B, nr, nc, mk.i), <<"U_lower is not the identity / surplus rows not zero after the second phase", ctx>>)
        [] mk.ph = 3 -> Chk(AfterPhase3(B, nr, nc, mk.i), <<"upper-left block not unit lower triangular after the third phase", ctx>>)
        [] mk.ph = 4 -> Chk(AfterPhase4(B, nr, nc, mk.i), <<"U_upper not zero after the fourth phase", ctx>>)
        [] mk.ph = 5 -> Chk(AfterPhase5(B, nr, nc), <<"not the identity after the fifth phase", ctx>>)
+
+\* The observed first-phase iteration from mark `pv` to mark `mk` is an instance of the specification's liberal Phase1Step:
+\* the row now at position i was a row at or below i with r >= 1 nonzeros in V, the column now at position i was one of
+\* them, exactly the other r-1 were moved to the front of U, and u grew by r-1.  M is the matrix at `pv`.
+PosOf(sq, x) == CHOOSE j \in 1..Len(sq) : sq[j] = x
+IsPhase1Step(e, pv, mk, M) ==
+  LET nc == Len(mk.c)
+      Bp == Logical(M, pv)
+      prow == mk.d[mk.i]                                  \* physical row chosen (now logical row i-1, 1-based index i)
+      r0 == PosOf(pv.d, prow) - 1                         \* where it was (0-based logical row)
+      vcols == pv.i..(nc - pv.u - 1)
+      ones == {j \in vcols : Bp[r0][j] # 0}
+      r == Cardinality(ones)
+      pivcol == mk.c[mk.i]                                \* physical column now at position i-1
+      moved == {mk.c[j + 1] : j \in (nc - mk.u)..(nc - pv.u - 1)}     \* physical columns that joined U
+      ctx == <<"K", e.k, "route", e.route, "i", pv.i, "u", pv.u>>
+  IN /\ Chk(mk.i = pv.i + 1, <<"first-phase step did not advance i by one", ctx>>)
+     /\ Chk(r0 >= pv.i /\ r >= 1, <<"chosen row has no nonzero in V or lies above i", ctx, "row", r0, "r", r>>)
+     /\ Chk(mk.u = pv.u + r - 1, <<"u did not grow by r-1", ctx, "r", r, "new u", mk.u>>)
+     /\ Chk(pivcol \in {pv.c[j + 1] : j \in ones}, <<"pivot column is not one of the chosen row's ones in V", ctx>>)
+     /\ Chk(moved = {pv.c[j + 1] : j \in ones} \ {pivcol}, <<"columns moved into U are not the other ones of the chosen row", ctx>>)
 
 Init == v_pos = 1 /\ v_mark = 0 /\ v_applied = 0 /\ v_mat = <<>>
 Load(e) == /\ v_mark = 0
@@ -45,6 +67,7 @@ MarkStep(e) ==
   /\ v_mark >= 1 /\ v_mark <= Len(e.marks)
   /\ LET mk == e.marks[v_mark] IN
      /\ Chk(mk.n >= v_applied /\ mk.n <= Len(e.ops), <<"operation counter went backwards", e.k, e.route, mk.n>>) = TRUE
+     /\ (mk.ph = 1 => IsPhase1Step(e, e.marks[v_mark - 1], mk, v_mat)) = TRUE
      /\ v_mat' = FoldLeft(ApplyF, v_mat, SubSeq(e.ops, v_applied + 1, mk.n))
      /\ MarkOk(e, mk, v_mat') = TRUE
      /\ v_applied' = mk.n
